@@ -291,6 +291,11 @@ def check_property(pid, tier, seed, repo_src, verif, jobs=16, only=None, verbose
     if only is None:
         for key, entry in ledger.items():
             if pid in entry.get('props', []) and key not in seen:
+                if key.startswith('frame:'):
+                    # FRAME-pass obligations are per mutation SITE and are named after the local variable: a renamed local or a
+                    # restructured function yields differently named sites, each of which is itself proved or refuted in this
+                    # run.  A site that no longer exists has nothing left to mutate; its disappearance is not a verdict.
+                    continue
                 undecided.append(f'{key}: recorded in the ledger but not generated any more (function renamed/deleted or contract unbound)')
 
     # known findings
@@ -304,6 +309,19 @@ def check_property(pid, tier, seed, repo_src, verif, jobs=16, only=None, verbose
             remaining.append((key, fname, suffix))
     violations = remaining
 
+    seq_contracts = [r for r in results if r.get('native_samples') is not None]
+    seq_assumptions = []
+    if seq_contracts:
+        from . import seq as _seq
+        seq_assumptions = ['sequence layer (contracts over lists of arbitrary length: ' + ', '.join(sorted(r['contract'] for r in seq_contracts)) + '): '
+                           'a comprehension / any / all / in / len / sum / sorted / set / dict / index / sort over an abstract list is given its list semantics as a '
+                           'quantified formula obtained by evaluating the body ONCE on a generic element (bodies are assumed free of side effects on anything but '
+                           'their own fresh objects; exceptions are raised for the first offending index); symbols introduced by the semantics are characterised by '
+                           'these axioms, which are assumed, not proved: ' + ' | '.join(_seq.AXIOMS_DOC),
+                           'sequence layer: branch feasibility inside quantified paths is decided on the quantifier-free part only (over-approximation: an infeasible '
+                           'path may be kept and is then discharged from its contradictory path condition); failing inputs for quantified obligations come from the '
+                           'run-time contract on the real code for random lists (CPython), since the SMT solver rarely produces models of quantified formulas',
+                           'sequence layer: native samples per contract: ' + '; '.join(f"{r['contract']}: {r['native_samples'].get('pre_held')} of {r['native_samples'].get('tried')} random inputs satisfied requires, {r['native_samples'].get('failures')} failed" for r in seq_contracts)]
     wall = round(time.time() - t0, 2)
     level = spec['level']
     ev = {
@@ -326,7 +344,7 @@ def check_property(pid, tier, seed, repo_src, verif, jobs=16, only=None, verbose
             'cpython_crosscheck_isolated_disagreements (minority of samples; round-off suspected, not treated as encoder error)': minor,
             'undecided': undecided, 'known_findings_hit': kf_lines,
         },
-        'assumptions': plan.assumptions(spec),
+        'assumptions': plan.assumptions(spec) + seq_assumptions,
         'wall_s': wall,
         'violations': len(violations),
     }
